@@ -252,31 +252,31 @@ def oracle_conservation(res, cfg, jds, jds_before, rec, out, tap, ctx):
     nm = len(cfg["motifs"])
     by = {j: [c for c in rec.calls if c[0] == j] for j in range(nm)}
     if jds != jds_before:
-        res.violate("input-jds-mutated", **ctx); return False
+        res.violate("input-jds-mutated", ctx=ctx); return False
     res.count("library_motif_calls_checked", rec.library_calls)
     if rec.alarms:
-        res.violate("library-motif-generator-returned-wrong-edges", first=rec.alarms[0], **ctx); return False
+        res.violate("library-motif-generator-returned-wrong-edges", first=rec.alarms[0], ctx=ctx); return False
     for j in range(nm):
         mycols = [(c, s) for c, (s, jj) in enumerate(cols) if jj == j]
         size_tot = sum(s for _, s in mycols)
         want_calls = sum(jds_before[v][mycols[0][0]] for v in range(N)) // mycols[0][1]
         res.count("motif_instances", len(by[j]))
         if len(by[j]) != want_calls:
-            res.violate("wrong-number-of-motif-instances", motif=j, got=len(by[j]), want=want_calls, **ctx); return False
+            res.violate("wrong-number-of-motif-instances", motif=j, got=len(by[j]), want=want_calls, ctx=ctx); return False
         off = 0
         for c, s in mycols:
             seg = Counter()
             for _, args, _, _ in by[j]:
                 if len(args) != size_tot:
-                    res.violate("build-callback-got-wrong-number-of-stubs", motif=j, got=len(args), want=size_tot, args=args, **ctx); return False
+                    res.violate("build-callback-got-wrong-number-of-stubs", motif=j, got=len(args), want=size_tot, args=args, ctx=ctx); return False
                 for v in args[off:off + s]:
                     if not is_vertex(v, N):
-                        res.violate("vertex-outside-range-in-callback-argument", vertex=repr(v), N=N, **ctx); return False
+                        res.violate("vertex-outside-range-in-callback-argument", vertex=repr(v), N=N, ctx=ctx); return False
                     seg[v] += 1
             want = Counter({v: jds_before[v][c] for v in range(N) if jds_before[v][c]})
             if seg != want:
                 diff = {v: (seg.get(v, 0), want.get(v, 0)) for v in set(seg) | set(want) if seg.get(v, 0) != want.get(v, 0)}
-                res.violate("stub-slots-not-conserved", motif=j, column=c, vertex_got_want=dict(list(diff.items())[:6]), **ctx); return False
+                res.violate("stub-slots-not-conserved", motif=j, column=c, vertex_got_want=dict(list(diff.items())[:6]), ctx=ctx); return False
             off += s
         res.count("columns_conserved", len(mycols))
     # returned object
@@ -288,30 +288,30 @@ def oracle_conservation(res, cfg, jds, jds_before, rec, out, tap, ctx):
         G = sut("Network.G", lambda: out.G)
         if set(G.nodes()) != set(range(N)):
             res.violate("network-vertex-set-differs", missing=sorted(set(range(N)) - set(G.nodes()))[:8],
-                        extra=[repr(x) for x in set(G.nodes()) - set(range(N))][:8], **ctx); return False
+                        extra=[repr(x) for x in set(G.nodes()) - set(range(N))][:8], ctx=ctx); return False
         for v in range(N):
             if G.nodes[v].get(_jdkey()) != jds_before[v]:
-                res.violate("network-vertex-annotation-differs", vertex=v, got=repr(G.nodes[v]), want=jds_before[v], **ctx); return False
+                res.violate("network-vertex-annotation-differs", vertex=v, got=repr(G.nodes[v]), want=jds_before[v], ctx=ctx); return False
         got = {upair(e) for e in G.edges()}
         if got != set(want_rows):
-            res.violate("network-edge-set-differs-from-callback-results", missing=sorted(set(want_rows) - got)[:6], extra=sorted(got - set(want_rows))[:6], **ctx); return False
+            res.violate("network-edge-set-differs-from-callback-results", missing=sorted(set(want_rows) - got)[:6], extra=sorted(got - set(want_rows))[:6], ctx=ctx); return False
         res.count("network_outputs")
     else:
         jd_out = sut("joint_degrees", lambda: out.joint_degrees)
         if list(jd_out) != list(jds_before):
-            res.violate("joint-degree-sequence-not-carried-through", got=repr(jd_out)[:200], **ctx); return False
+            res.violate("joint-degree-sequence-not-carried-through", got=repr(jd_out)[:200], ctx=ctx); return False
         rows = Counter()
         for e in out.edge_list:
             try:
                 a, b = e
             except Exception:
-                res.violate("edge-entry-not-a-pair", entry=repr(e), **ctx); return False
+                res.violate("edge-entry-not-a-pair", entry=repr(e), ctx=ctx); return False
             if not (is_vertex(a, N) and is_vertex(b, N)):
-                res.violate("vertex-outside-range-in-edge-list", entry=repr(e), N=N, **ctx); return False
+                res.violate("vertex-outside-range-in-edge-list", entry=repr(e), N=N, ctx=ctx); return False
             rows[upair((a, b))] += 1
         if rows != want_rows:
             d = {k: (rows.get(k, 0), want_rows.get(k, 0)) for k in set(rows) | set(want_rows) if rows.get(k, 0) != want_rows.get(k, 0)}
-            res.violate("edge-list-is-not-the-union-of-callback-results", pair_got_want=dict(list(d.items())[:6]), **ctx); return False
+            res.violate("edge-list-is-not-the-union-of-callback-results", pair_got_want=dict(list(d.items())[:6]), ctx=ctx); return False
         res.count("edgelist_outputs")
     return True
 
@@ -347,45 +347,45 @@ def oracle_columns(res, cfg, jds_before, rec, out, ctx):
                 if occ[p] != 1:
                     continue
                 if not G.has_edge(*p):
-                    res.violate("network-edge-missing", pair=p, **ctx); return False
+                    res.violate("network-edge-missing", pair=p, ctx=ctx); return False
                 d = G.edges[p]
                 if d.get(NN.TOPOLOGY) != nm:
-                    res.violate("network-edge-wrong-name", pair=p, got=repr(d.get(NN.TOPOLOGY)), want=nm, **ctx); return False
+                    res.violate("network-edge-wrong-name", pair=p, got=repr(d.get(NN.TOPOLOGY)), want=nm, ctx=ctx); return False
                 mid = d.get(NN.MOTIF_IDS)
                 if my is None:
                     my = mid
                 elif mid != my:
-                    res.violate("network-motif-split-over-two-ids", pair=p, ids=[repr(my), repr(mid)], **ctx); return False
+                    res.violate("network-motif-split-over-two-ids", pair=p, ids=[repr(my), repr(mid)], ctx=ctx); return False
                 res.count("network_edges_checked")
             if my is not None:
                 try:
                     if my in ids and ids[my] != id(args):
-                        res.violate("network-two-instances-share-an-id", id=repr(my), **ctx); return False
+                        res.violate("network-two-instances-share-an-id", id=repr(my), ctx=ctx); return False
                     ids[my] = id(args)
                 except TypeError:
-                    res.violate("network-motif-id-unhashable", id=repr(my), **ctx); return False
+                    res.violate("network-motif-id-unhashable", id=repr(my), ctx=ctx); return False
         return True
     el, tp, mi = out.edge_list, out.topologies, out.motif_id
     total = sum(len(c[2]) for c in calls)
     if not (len(el) == len(tp) == len(mi)):
-        res.violate("columns-have-different-lengths", edges=len(el), names=len(tp), ids=len(mi), expected_rows=total, **ctx); return False
+        res.violate("columns-have-different-lengths", edges=len(el), names=len(tp), ids=len(mi), expected_rows=total, ctx=ctx); return False
     if len(el) != total:
-        res.violate("row-count-differs-from-callback-results", rows=len(el), expected_rows=total, **ctx); return False
+        res.violate("row-count-differs-from-callback-results", rows=len(el), expected_rows=total, ctx=ctx); return False
     groups = {}
     order = []
     for e, nm, i in zip(el, tp, mi):
         if not (isinstance(e, (tuple, list)) and len(e) == 2 and is_vertex(e[0], N) and is_vertex(e[1], N)):
-            res.violate("edge-entry-is-not-a-pair-of-vertex-ids", entry=repr(e)[:120], **ctx); return False
+            res.violate("edge-entry-is-not-a-pair-of-vertex-ids", entry=repr(e)[:120], ctx=ctx); return False
         try:
             hash(i)
         except TypeError:
-            res.violate("motif-id-unhashable", id=repr(i), **ctx); return False
+            res.violate("motif-id-unhashable", id=repr(i), ctx=ctx); return False
         if i not in groups:
             groups[i] = []
             order.append(i)
         groups[i].append((upair(e), nm))
     if len(groups) != len(calls):
-        res.violate("number-of-motif-ids-differs-from-number-of-instances", ids=len(groups), instances=len(calls), **ctx); return False
+        res.violate("number-of-motif-ids-differs-from-number-of-instances", ids=len(groups), instances=len(calls), ctx=ctx); return False
     # perfect matching between id groups and calls, found by sorting (no assumption on id values/order)
     def key_of(rows):
         try:
@@ -403,6 +403,6 @@ def oracle_columns(res, cfg, jds_before, rec, out, ctx):
         wp = sorted(sorted(p for p, _ in g) for g in want)
         clause = "edge-names-differ-from-prescribed" if gp == wp else "id-groups-are-not-the-callback-results"
         bad = [g for g in got if g not in want][:2]
-        res.violate(clause, example_groups=bad, example_expected=[w for w in want if w not in got][:2], **ctx); return False
+        res.violate(clause, example_groups=bad, example_expected=[w for w in want if w not in got][:2], ctx=ctx); return False
     res.count("id_groups_matched", len(groups))
     return True
